@@ -107,6 +107,51 @@ Theorem running_le_njob_proof :
     length (running l) <= n /\ command_tasks l <= n /\ njob l = n /\ overrun l = false.
 Proof. exact (running_le_njob_of_sound _ _ hash_slot_free_sound job_slot_free_sound). Qed.
 
+(* For the bound on step COMMANDS alone the test in front of pop_next_job / start_task suffices:
+   whatever test guards start_hash_task (hash tasks execute no command). *)
+Definition cinv (l : loop) : Prop :=
+  command_tasks l + (if popping l then 1 else 0) <= njob l.
+
+Lemma command_tasks_remove : forall t r, length (filter is_job (remove_first t r)) <= length (filter is_job r).
+Proof.
+  intros t r. induction r as [|x r IH]; simpl; [lia|].
+  destruct (task_eqb t x); simpl; [destruct (is_job x); simpl; lia|].
+  destruct (is_job x); simpl; lia.
+Qed.
+
+Lemma lstep_cinv : forall hg jg, sound_test jg -> forall l e, cinv l -> cinv (lstep_gen hg jg l e).
+Proof.
+  intros hg jg Hj l e H. unfold cinv, command_tasks in *.
+  destruct e as [h| |[j|]|t|j|j| | | |]; simpl; try exact H.
+  - destruct (popping l) eqn:Ep; simpl; [rewrite Ep; exact H|].
+    destruct (guard_of hg l); simpl; [lia|rewrite Ep; exact H].
+  - destruct (popping l) eqn:Ep; simpl; [rewrite Ep; exact H|].
+    destruct (guard_of jg l) eqn:Eg; simpl; [|rewrite Ep; exact H].
+    apply (guard_of_lt jg l Hj) in Eg. pose proof (filter_length_le is_job (running l)). lia.
+  - destruct (popping l) eqn:Ep; simpl; [destruct (draining l); simpl; lia|lia].
+  - destruct (popping l); lia.
+  - pose proof (command_tasks_remove t (running l)). destruct (popping l); lia.
+  - destruct (existsb (task_eqb (TJob j)) (running l)); simpl; exact H.
+Qed.
+
+Theorem commands_le_njob_of_sound_job_test :
+  forall hg jg, sound_test jg ->
+  forall (n : nat) (evs : list lev),
+    let l := lrun_gen hg jg (loop_init n) evs in command_tasks l <= n /\ overrun l = false.
+Proof.
+  intros hg jg Hj n evs.
+  assert (G : forall evs l, cinv l -> cinv (lrun_gen hg jg l evs) /\ njob (lrun_gen hg jg l evs) = njob l).
+  { induction evs0 as [|e r IH]; intros l H; simpl; [split; [exact H|reflexivity]|].
+    destruct (IH (lstep_gen hg jg l e) (lstep_cinv hg jg Hj l e H)) as [A B]. split; [exact A|].
+    change (lrun_gen hg jg l (e :: r)) with (lrun_gen hg jg (lstep_gen hg jg l e) r).
+    rewrite B. apply lstep_njob. }
+  assert (H0 : cinv (loop_init n)) by (unfold cinv, command_tasks; simpl; lia).
+  destruct (G evs (loop_init n) H0) as [A B]. simpl in B. intros l. fold l in A, B.
+  unfold cinv in A. rewrite B in A.
+  assert (C : command_tasks l <= n) by (destruct (popping l); lia).
+  split; [exact C|]. unfold overrun. apply negb_false_iff. apply Nat.leb_le. rewrite B. exact C.
+Qed.
+
 (* the commands parked in amend() are among the counted ones: the bound is on ALL step commands
    that have started and not ended, parked or not *)
 Theorem parked_commands_counted :
